@@ -37,36 +37,46 @@ def body_of(txt, header_re):
     return None
 
 
-def handler_shape(body, call_re):
-    """the four steps, in this order, with nothing touching cltAddr in between"""
+def handler_shape(txt, method, parser, extra_args):
+    """the four steps, in this order, with nothing touching the address variable in between; the names of the
+    parameter and of the local are read from the text (renaming them is harmless)"""
+    m = re.search(r"Ftp::Server::" + method + r"\( ?String ?& ?\w*, String ?& ?(\w+) ?\)", txt)
+    if not m:
+        return False
+    par = m.group(1)
+    body = body_of(txt, r"Ftp::Server::" + method + r"\(")
     if body is None:
         return False
-    steps = [r"if \( ?!params\.size\(\) ?\) \{[^{}]*return false; \}",
-             r"Ip::Address cltAddr;",
-             r"if \( ?!" + call_re + r" ?\) \{[^{}]*return false; \}",
-             r"if \( ?!createDataConnection\(cltAddr\) ?\) return false;"]
+    d = re.search(r"Ip::Address (\w+);", body)
+    if not d:
+        return False
+    var = d.group(1)
+    call = parser + r"\( ?" + par + r"\.termedBuf\(\), " + extra_args + var + r" ?\)"
+    steps = [r"if \( ?(?:!" + par + r"\.size\(\)|" + par + r"\.size\(\) ?(?:== ?0|<= ?0|< ?1)) ?\) \{[^{}]*return false; \}",
+             r"Ip::Address " + var + ";",
+             r"if \( ?!" + call + r" ?\) \{[^{}]*return false; \}",
+             r"if \( ?!createDataConnection\(" + var + r"\) ?\) return false;"]
     pos = 0
     spans = []
     for s in steps:
-        m = re.compile(s).search(body, pos)
-        if not m:
+        mm = re.compile(s).search(body, pos)
+        if not mm:
             return False
-        spans.append((m.start(), m.end()))
-        pos = m.end()
-    # between the declaration and the parser call, and between the call and its use, cltAddr is not mentioned
-    if "cltAddr" in body[spans[1][1]:spans[2][0]] or "cltAddr" in body[spans[2][1]:spans[3][0]]:
+        spans.append((mm.start(), mm.end()))
+        pos = mm.end()
+    word = re.compile(r"\b" + var + r"\b")
+    # between the declaration and the parser call, and between the call and its use, the variable is not mentioned
+    if word.search(body[spans[1][1]:spans[2][0]]) or word.search(body[spans[2][1]:spans[3][0]]):
         return False
     # and not before its declaration either
-    if "cltAddr" in body[:spans[1][0]]:
+    if word.search(body[:spans[1][0]]):
         return False
     return True
 
 
 srv = strip(open(repo + "/src/servers/FtpServer.cc", encoding="latin1").read())
-port_ok = handler_shape(body_of(srv, r"Ftp::Server::handlePortRequest\("),
-                        r"Ftp::ParseIpPort\(params\.termedBuf\(\), nullptr, cltAddr\)")
-eprt_ok = handler_shape(body_of(srv, r"Ftp::Server::handleEprtRequest\("),
-                        r"Ftp::ParseProtoIpPort\(params\.termedBuf\(\), cltAddr\)")
+port_ok = handler_shape(srv, "handlePortRequest", r"Ftp::ParseIpPort", r"nullptr, ")
+eprt_ok = handler_shape(srv, "handleEprtRequest", r"Ftp::ParseProtoIpPort", r"")
 
 gw = strip(open(repo + "/src/clients/FtpGateway.cc", encoding="latin1").read())
 lp = body_of(gw, r"ftpListParseParts\(const char \*buf, struct Ftp::GatewayFlags flags\)") or ""
